@@ -89,7 +89,13 @@ json stress_plan(Rng &r, int tier, uint64_t idx)
 	int shape = (int)(idx % 14);
 	static const long sizes_q[] = {1, 10, 100, 1000, 5000};
 	static const long sizes_t[] = {10, 1000, 10000, 100000, 1000000};
-	long n = tier ? sizes_t[r.below(5)] : sizes_q[r.below(5)];
+	// thorough: most shapes stay small, a few are huge (the stress plans are spread over all lanes now: their total cost
+	// decides how many ordinary plans a time-bounded run gets to)
+	static const int weights_t[] = {30, 30, 27, 12, 1};
+	int pick = (int)r.below(100), sel = 0;
+	while (sel < 4 && pick >= weights_t[sel])
+		pick -= weights_t[sel++];
+	long n = tier ? sizes_t[sel] : sizes_q[r.below(5)];
 	int flags = 0;
 	std::string t;
 	std::string shape_name;
@@ -136,7 +142,7 @@ json stress_plan(Rng &r, int tier, uint64_t idx)
 		break;
 	case 6:
 		shape_name = "long_list";
-		n = std::min<long>(n, 100000);
+		n = std::min<long>(n, 20000); // the value array grows one slot at a time: quadratic
 		t = "l = {";
 		for (long i = 0; i < n; i++)
 			t += std::to_string(i) + ",";
@@ -178,7 +184,7 @@ json stress_plan(Rng &r, int tier, uint64_t idx)
 	}
 	case 11:
 		shape_name = "many_freeform_keys";
-		n = std::min<long>(n, 20000);
+		n = std::min<long>(n, 3000); // every new key is checked against all earlier ones: quadratic
 		t = "kv {\n";
 		for (long i = 0; i < n; i++)
 			t += "key" + std::to_string(i) + " = v\n";
